@@ -139,10 +139,14 @@ type sampleR struct {
 //	      | metaMany (AddSamples + Mdat.SetData; single) | metaTrack (AddSampleToTrack + Mdat.SetData)
 //	      | interval (AddSampleInterval, data as mdat parts; single)
 type fragR struct {
-	Ctor      string    `json:"ctor"`
-	Seq       uint32    `json:"seq"`
-	Tracks    []uint32  `json:"tracks"` // track ids
-	Mode      string    `json:"mode"`
+	Ctor   string   `json:"ctor"`
+	Seq    uint32   `json:"seq"`
+	Tracks []uint32 `json:"tracks"` // track ids
+	Mode   string   `json:"mode"`
+	// MetaData (meta, metaMany, metaTrack): "" = the data is handed over with Mdat.SetData (which ends the lazy mode of
+	// the mdat box); "add" = with Mdat.AddSampleData per sample: the box then has a lazy size (from AddSample...) AND
+	// its data in memory, of the same length
+	MetaData  string    `json:"metaData,omitempty"`
 	Samples   []sampleR `json:"samples,omitempty"`
 	Pre       []boxR    `json:"pre,omitempty"`       // manual: AddChild before the moof (prft, emsg)
 	Emsgs     []boxR    `json:"emsgs,omitempty"`     // Fragment.AddEmsg
@@ -473,7 +477,7 @@ func buildFrag(r *fragR, ipd *mp4.InitProtectData) (*mp4.Fragment, error) {
 			frag.AddSample(mp4.NewSample(s.Flags, s.Dur, uint32(s.Size), s.Cto), s.Time)
 			all = append(all, sampleBytes(s)...)
 		}
-		frag.Mdat.SetData(all) // ends the lazy mode of the mdat box: the data is written with the box
+		attachMeta(frag, r, all) // SetData ends the lazy mode of the mdat box: the data is written with the box
 	case "metaMany":
 		if !single {
 			return nil, reject("mode metaMany needs CreateFragment")
@@ -488,7 +492,7 @@ func buildFrag(r *fragR, ipd *mp4.InitProtectData) (*mp4.Fragment, error) {
 			all = append(all, sampleBytes(s)...)
 		}
 		frag.AddSamples(ss, t0)
-		frag.Mdat.SetData(all)
+		attachMeta(frag, r, all)
 	case "metaTrack":
 		for _, s := range r.Samples {
 			if err := frag.AddSampleToTrack(mp4.NewSample(s.Flags, s.Dur, uint32(s.Size), s.Cto), r.Tracks[s.Track%len(r.Tracks)], s.Time); err != nil {
@@ -496,7 +500,7 @@ func buildFrag(r *fragR, ipd *mp4.InitProtectData) (*mp4.Fragment, error) {
 			}
 			all = append(all, sampleBytes(s)...)
 		}
-		frag.Mdat.SetData(all)
+		attachMeta(frag, r, all)
 	case "interval", "intervalThenFull":
 		// "intervalThenFull": the last sample goes in through AddFullSample after the intervals (the mdat then holds
 		// data parts AND monolithic data; the library keeps going without an error, so the relation is judged)
@@ -1006,6 +1010,9 @@ func Classify(c *Case) []string {
 			fr := &sg.Frags[j]
 			add("frag:ctor-" + fr.Ctor)
 			add("frag:mode-" + fr.Mode)
+			if fr.MetaData != "" {
+				add("frag:meta-data-" + fr.MetaData)
+			}
 			add(fmt.Sprintf("frag:tracks-%d", len(fr.Tracks)))
 			switch n := len(fr.Samples); {
 			case n == 0:
@@ -1072,4 +1079,17 @@ func Classify(c *Case) []string {
 		boxes(c.Box.K)
 	}
 	return cl
+}
+
+// attachMeta hands the sample data of a metadata-only history to the mdat box.
+func attachMeta(frag *mp4.Fragment, r *fragR, all []byte) {
+	if r.MetaData == "add" {
+		pos := 0
+		for _, s := range r.Samples {
+			frag.Mdat.AddSampleData(all[pos : pos+s.Size])
+			pos += s.Size
+		}
+		return
+	}
+	frag.Mdat.SetData(all)
 }
